@@ -269,6 +269,18 @@ impl World {
         let res: Result<String, String>;
         let what: String;
         macro_rules! krill { () => { &self.env().krill } }
+        // now and then the object store of the CAs refuses its next write:
+        // a command that changes objects is then rejected by the pre-save
+        // listener after it has been applied to a copy of the aggregate --
+        // nothing of it may stay behind, in memory or in the audit log
+        let faulty = !self.cas.is_empty() && pick >= 8
+            && self.rng.below(100) < 7;
+        if faulty {
+            krill::verif::set_fault_mode(
+                krill::verif::FaultMode::ErrorAt(1),
+                Some("kv:store:/".to_string()),
+            );
+        }
         if self.cas.is_empty() || pick < 8 {
             // new CA under the TA or under a level-1 CA
             let name = format!("c{}", self.next_ca);
@@ -745,8 +757,12 @@ impl World {
                 format!("{} tasks", done.len())
             });
         }
+        let fired = faulty && krill::verif::fault_fired();
+        if faulty {
+            krill::verif::set_fault_mode(krill::verif::FaultMode::Off, None);
+        }
         let line = json!({
-            "n": n, "what": what,
+            "n": n, "what": what, "fault": fired,
             "res": match &res { Ok(s) => s.clone(), Err(e) => format!("err: {e}") },
         });
         self.log.push(line.clone());
